@@ -43,6 +43,13 @@ def sortBy {α : Type} (le : α → α → Bool) (xs : List α) : List α := xs.
 
 def strLe (a b : Name) : Bool := decide (a ≤ b)
 
+/-- Python's comparison of two lists (`a <= b`): the first differing position decides, a proper
+    prefix is smaller.  Used for `Path` components and for isort's natural keys. -/
+def lexLe {α : Type} [DecidableEq α] (le : α → α → Bool) : List α → List α → Bool
+  | [], _ => true
+  | _ :: _, [] => false
+  | a :: as, b :: bs => if a = b then lexLe le as bs else le a b
+
 /-- `sorted(xs)` on `str` (code-point order) -/
 def pySorted (xs : List Name) : List Name := sortBy strLe xs
 
@@ -134,7 +141,7 @@ structure DefGen where
   publicNames : List Name        -- get_generated_public_names()
   usedEnums : List Name          -- get_used_enums()
   mixins : List Name             -- get_fragments_used_as_mixins(): a SET (listing)
-  deriving Repr, DecidableEq
+  deriving Repr, DecidableEq, Inhabited
 
 /-- the module handed to `ast_to_str` (before autoflake / isort / black) -/
 structure RawModule where
@@ -163,22 +170,32 @@ sorted_class_defs = [c for name in _get_sorted_fragments_names(...) for c in cla
 module = imports + sorted_class_defs + _get_model_rebuild_calls(top_level_class_names, sorted_class_defs)
 ```
 `defs` is the dict `fragments_definitions` paired with what its generator yields. -/
-def generateFragments (e : EnumOracle) (defs : List (Name × DefGen)) (exclude : List Name) : Except Err FragOut := do
-  let names := e ((defs.map (·.1)).filter (fun n => !exclude.contains n))   -- iteration order of the set difference
-  let gens ← names.mapM (fun n => match lookup defs n with
-    | some g => .ok (n, g)
+def fragGens (defs : List (Name × DefGen)) (names : List Name) : Except Err (List (Name × DefGen)) :=
+  names.mapM (fun n => match lookup defs n with
+    | some g => .ok (n, g)                    -- self.fragments_definitions[name] + its ResultTypesGenerator
     | none => .error (.keyError n))
-  let deps : Deps := gens.map (fun (n, g) => (n, g.mixins))
+
+/-- `class_defs_dict[name]` -/
+def classesOf (gens : List (Name × DefGen)) (n : Name) : Except Err (List Name) :=
+  match lookup gens n with
+  | some g => .ok g.classes
+  | none => .error (.keyError n)
+
+/-- everything after the loop, given the generators in loop order -/
+def generateFromGens (e : EnumOracle) (names : List Name) (gens : List (Name × DefGen)) : Except Err FragOut := do
+  let deps : Deps := gens.map (fun p => (p.1, p.2.mixins))
   let sortedNames ← sortedFragmentsNames e names deps
-  let classes ← sortedNames.mapM (fun n => match lookup gens n with
-    | some g => .ok g.classes
-    | none => .error (.keyError n))
-  let classes := classes.flatten
-  let top := gens.filterMap (fun (_, g) => g.classes.head?)
-  let rebuilds ← rebuildCalls top classes
-  pure { module := { imports := gens.flatMap (·.2.imports), classes := classes, rebuilds := rebuilds },
+  let classes ← sortedNames.mapM (classesOf gens)
+  let top := gens.filterMap (fun p => p.2.classes.head?)
+  let rebuilds ← rebuildCalls top classes.flatten
+  pure { module := { imports := gens.flatMap (·.2.imports), classes := classes.flatten, rebuilds := rebuilds },
          publicNames := gens.flatMap (·.2.publicNames),
          usedEnums := gens.flatMap (·.2.usedEnums) }
+
+def generateFragments (e : EnumOracle) (defs : List (Name × DefGen)) (exclude : List Name) : Except Err FragOut := do
+  let names := e ((defs.map (·.1)).filter (fun n => !exclude.contains n))   -- iteration order of the set difference
+  let gens ← fragGens defs names
+  generateFromGens e names gens
 
 /-! ### result_types.py — the `from .fragments import …` of an operation module
 
@@ -262,6 +279,67 @@ def initAdd (imports : List ImportFrom) (names : List Name) (from_ : String) : L
 /-- `generate`: imports followed by `__all__ = sorted(all names)` -/
 def initAll (imports : List ImportFrom) : List Name := pySorted (imports.flatMap (·.names))
 
+/-! ### package.py — what `add_operation` / `generate` hand to the formatter, as far as sets are involved
+
+```python
+def add_operation(self, definition):
+    query_types_generator = ResultTypesGenerator(...)
+    self._unpacked_fragments = self._unpacked_fragments.union(query_types_generator.get_unpacked_fragments())
+    self._used_enums.extend(query_types_generator.get_used_enums())
+    self._result_types_files[file_name] = query_types_generator.generate()
+def _generate_fragments(self):
+    if not set(self.fragments_definitions.keys()).difference(self._unpacked_fragments): return
+    module = self.fragments_generator.generate(exclude_names=self._unpacked_fragments)
+    ...
+    self._used_enums.extend(self.fragments_generator.get_used_enums())
+    self.init_generator.add_import(self.fragments_generator.get_generated_public_names(), self.fragments_module_name, 1)
+def _generate_enums(self):
+    module = self.enums_generator.generate() if self.include_all_enums else self.enums_generator.generate(types_to_include=self._used_enums)
+```
+-/
+
+structure OpIn where
+  module : Name            -- the operation's module (`<module>.py`)
+  gen : DefGen             -- its ResultTypesGenerator: `imports` WITHOUT the fragments import, `mixins` = the set
+  unpacked : List Name     -- get_unpacked_fragments(): a set
+  deriving Repr
+
+structure PkgIn where
+  defs : List (Name × DefGen)     -- fragments_definitions ↦ the generator `FragmentsGenerator.generate` builds
+  ops : List OpIn                 -- add_operation calls, document order
+  pascal : Name → Name            -- str_to_pascal_case
+  fragmentsModule : String
+  schemaEnums : List Name         -- enum classes in schema order
+  includeAllEnums : Bool
+  otherUsedEnums : List Name      -- `_used_enums` contributions of input types, operations, client arguments (lists)
+  initBefore : List ImportFrom    -- init imports added before `_generate_fragments` runs
+  initAfter : List ImportFrom     -- … and after it
+
+/-- modules before formatting -/
+structure PkgRaw where
+  opModules : List (Name × List ImportFrom)
+  fragments : Option FragOut
+  enums : List Name
+  init : List ImportFrom
+  deriving Repr
+
+/-- `_generate_fragments`: nothing when every fragment was unpacked, else `FragmentsGenerator.generate` -/
+def packageFrag (e : EnumOracle) (x : PkgIn) : Except Err (Option FragOut) :=
+  let unpacked := e (x.ops.flatMap (·.unpacked))                  -- the union of the sets, as a set
+  let live := (x.defs.map (·.1)).filter (fun n => !unpacked.contains n)
+  if live.isEmpty then .ok none else (generateFragments e x.defs unpacked).map some
+
+def packageRawOf (e : EnumOracle) (x : PkgIn) (frag : Option FragOut) : PkgRaw :=
+  let fragEnums := match frag with | some o => o.usedEnums | none => []
+  let fragPublic := match frag with | some o => o.publicNames | none => []
+  { opModules := x.ops.map (fun o => (o.module, opImports e x.pascal x.fragmentsModule o.gen)),
+    fragments := frag,
+    enums := filterEnums x.schemaEnums (if x.includeAllEnums then none else some (x.otherUsedEnums ++ fragEnums)),
+    init := initAdd x.initBefore fragPublic x.fragmentsModule ++ x.initAfter }
+
+def packageRaw (e : EnumOracle) (x : PkgIn) : Except Err PkgRaw :=
+  (packageFrag e x).map (packageRawOf e x)
+
 /-! ### schema.py — loading a directory of .graphql files
 
 ```python
@@ -299,7 +377,7 @@ def isGraphqlFile (en : Entry) : Bool :=
   | some nm => [".graphql", ".graphqls", ".gql"].contains (pySuffix nm)
   | none => false
 
-def pathLe (a b : Entry) : Bool := decide (a.path ≤ b.path)
+def pathLe (a b : Entry) : Bool := lexLe strLe a.path b.path
 
 /-- `dirList` = the order in which `Path.glob("**/*")` happens to yield the entries (file-system dependent) -/
 def loadGraphqlFiles (dirList : List Entry → List Entry) (entries : List Entry) : Except Err String := do
